@@ -303,7 +303,11 @@ func genCase(t *rapid.T) Case {
 		userEval := rapid.IntRange(0, 9).Draw(t, "user_eval") < 6
 		detDirect := rapid.IntRange(0, 2).Draw(t, "detector_direct") == 0
 		if rapid.Bool().Draw(t, "rotate") {
-			c.Rotate, c.MinConf, c.StableUS = true, 0, 0
+			// MinConf doubles as the number of refused transition stops (the selector's minimum confidence is 0 with Rotate)
+			c.Rotate, c.MinConf, c.StableUS = true, rapid.IntRange(0, 3).Draw(t, "refusedStops"), 0
+			if rapid.IntRange(0, 2).Draw(t, "longStability") == 0 {
+				c.StableUS = 30000000 // the first accepted mode stays for the whole program
+			}
 		}
 		for i := 0; i < n; i++ {
 			th := Thread{Role: "user"}
